@@ -122,8 +122,9 @@ func addr(first, last byte) []byte {
 }
 
 func metaAddr(tag byte) []byte {
+	// bytes 0..24 zero (smart contract on the metachain), tag inside the free bytes 25..30
 	a := make([]byte, 32)
-	a[20] = tag
+	a[28] = tag
 	a[31] = 0xFF
 	return a
 }
@@ -298,6 +299,11 @@ func newRig() *rig {
 	coord, err := sharding.NewMultiShardCoordinator(2, core.MetachainShardId)
 	must(err)
 	r.coord = coord
+	for _, a := range [][]byte{metaPlain, metaDeleg} {
+		if coord.ComputeId(a) != core.MetachainShardId { // vacuity guard: the metachain clauses need real metachain addresses
+			panic("c35: harness metachain address is not on the metachain")
+		}
+	}
 	pkc, err := pubkeyConverter.NewBech32PubkeyConverter(32)
 	must(err)
 	delegAcc, err := state.NewUserAccount(metaDeleg)
@@ -633,6 +639,9 @@ func (rn *runner) execute(r *rig, j *job, a *acc) (nVal int, dust bool) {
 		}
 	}
 	sumForOut = sum
+	if os.Getenv("C35_DEBUG") != "" {
+		fmt.Fprintln(os.Stderr, "C35_DEBUG", ver, txLines, "sum", sum, "expected", expected)
+	}
 	for _, b := range bads {
 		fail(b.sig, b.what)
 	}
